@@ -28,6 +28,7 @@ import (
 	"sort"
 	"strconv"
 	"strings"
+	"time"
 
 	"filippo.io/mldsa"
 	"filippo.io/sunlight/internal/witness"
@@ -335,7 +336,8 @@ func (h *hist) garbageTicket() []byte {
 	}
 }
 
-func (h *hist) evBegin(q beginReq) (*session, result) {
+// prepBegin: the session, the function that serves the request, and the event line of a begin
+func (h *hist) prepBegin(q beginReq) (*session, func(), string, beginReq) {
 	q.faults = h.tick(q.faults)
 	if q.hdr == "" {
 		q.hdr = "-"
@@ -376,7 +378,7 @@ func (h *hist) evBegin(q beginReq) (*session, result) {
 	s := &session{sid: h.nextSid, resume: make(chan struct{}), start: q.start, end: q.end, req: q}
 	h.nextSid++
 	h.sessions = append(h.sessions, s)
-	h.logf("ev|begin|%d|%s|%s|%d|%d|%s|%s|%s", s.sid, q.hdr, q.origin, q.start, q.end, q.ticket,
+	line := fmt.Sprintf("ev|begin|%d|%s|%s|%d|%d|%s|%s|%s", s.sid, q.hdr, q.origin, q.start, q.end, q.ticket,
 		faultsText(q.faults), h.log.bodyText(q.body))
 	h.stats["event|begin"]++
 	h.stats["hdr|"+q.hdr]++
@@ -390,12 +392,96 @@ func (h *hist) evBegin(q beginReq) (*session, result) {
 	}
 	s.rec = httptest.NewRecorder()
 	handler := h.handler
+	return s, func() { handler.ServeHTTP(s.rec, req) }, line, q
+}
+
+func (h *hist) evBegin(q beginReq) (*session, result) {
+	s, serve, line, q := h.prepBegin(q)
+	h.logf("%s", line)
 	h.sim.beginEvent(q.faults)
-	runSession(s, func() { handler.ServeHTTP(s.rec, req) })
+	runSession(s, serve)
 	h.endEvent()
 	res := h.answer(s, "begin")
 	h.maybeRetry(s, res)
 	return s, res
+}
+
+// evCommitRace: the commit of session a is held INSIDE the first Backend.Fetch of its commit stage
+// (the probe of ensureCutTiles: the cut must be mid-tile) while a second request q is started in
+// its own goroutine. If the commit stage holds the per-log mutex across ensureCutTiles (the
+// unchanged code), q blocks in its metadata stage: a is released, and q's begin is recorded after
+// a's commit, which is the order in which the two took effect (comparable with the model). If q is
+// NOT blocked, it is run to completion (packages and commit) before a is released: whatever
+// a's commit then records meets the monitors (servable incl. rollback, monotone).
+func (h *hist) evCommitRace(a *session, q beginReq) (result, *session, result) {
+	if a == nil || a.dead || a.done || a.parked != "commit" {
+		return result{}, nil, result{}
+	}
+	h.tick(nil)
+	h.logf("ev|commit|%d|-", a.sid)
+	h.stats["event|commit"]++
+	h.sim.beginEvent(nil)
+	h.sim.stall = a
+	runSession(a, nil)
+	if a.done || a.parked != "fetch" {
+		// the commit did not probe the backend: an ordinary commit, then an ordinary begin
+		h.sim.stall = nil
+		h.endEvent()
+		resA := h.answer(a, "commit")
+		h.mon.monotone(h.sim)
+		h.stats["race|nowindow"]++
+		b, resB := h.evBegin(q)
+		return resA, b, resB
+	}
+	b, serve, lineB, _ := h.prepBegin(q)
+	startSession(b, serve)
+	var first *session
+	stable := 0
+	for deadline := time.Now().Add(20 * time.Second); first == nil && time.Now().Before(deadline); {
+		select {
+		case first = <-wake:
+		case <-time.After(10 * time.Millisecond):
+			if goroutineBlockedOnMutex(b) {
+				stable++
+			} else {
+				stable = 0
+			}
+		}
+		if stable >= 5 {
+			break
+		}
+	}
+	if first == nil {
+		// q waits for the per-log mutex behind a's commit
+		h.stats["race|blocked"]++
+		a.parked = ""
+		a.resume <- struct{}{}
+		<-wake
+		<-wake // a answered and b parked or answered, in either order
+		h.endEvent()
+		resA := h.answer(a, "commit")
+		h.mon.monotone(h.sim)
+		h.logf("%s", lineB)
+		resB := h.answer(b, "begin")
+		return resA, b, resB
+	}
+	// q was not held up by a's commit
+	h.stats["race|overtook"]++
+	h.logf("%s", lineB)
+	resB := h.answer(b, "begin")
+	if resB.gate {
+		resB = h.runToEnd(b, resB)
+	}
+	h.sim.beginEvent(nil)
+	a.parked = ""
+	current = a
+	a.resume <- struct{}{}
+	<-wake
+	current = nil
+	h.endEvent()
+	resA := h.answer(a, "commit")
+	h.mon.monotone(h.sim)
+	return resA, b, resB
 }
 
 func (h *hist) evPkg(s *session, fs []fault) (result, bool) {
@@ -442,6 +528,7 @@ func (h *hist) evCommit(s *session, fs []fault) (result, bool) {
 	runSession(s, nil)
 	h.endEvent()
 	res := h.answer(s, "commit")
+	h.mon.monotone(h.sim)
 	h.maybeRetry(s, res)
 	return res, true
 }
@@ -586,6 +673,7 @@ func (h *hist) answer(s *session, stage string) result {
 			}
 		}
 		if c != nil {
+			h.mon.released(c.size)
 			h.logf("> resp %d 200 %s %s", s.sid, res.class, *c)
 		} else {
 			h.logf("> resp %d 200 %s", s.sid, res.class)
